@@ -55,6 +55,43 @@ def evaluate(i, scn):
         ok = len(ev1) == len(ev2) and np.allclose(ev1, ev2, rtol=1e-7, atol=1e-9 * max(ev1.max(), 1e-300))
         ck.m(ok, "C01", "C01_ExtendedEOFSingleEmbedding", f"ExtendedEOF(embedding=1) explained variances {ev2.tolist()} differ from EOF {ev1.tolist()}")
         count["ExtendedEOF"] = 1
+        # delay embedding proper: the explained variances are the eigenvalues of the covariance of the
+        # delay-augmented matrix, which the harness builds itself
+        tau, emb = 1 + (i // 3) % 3, 2 + (i // 9) % 2
+        n_eff = c["n"] - (emb - 1) * tau
+        kap = c["n"] if c["std"] else 1
+        if n_eff >= 3:
+            A = sw.preprocessed(c["n"])
+            E = np.concatenate([A[j * tau: j * tau + n_eff] for j in range(emb)], axis=1)
+            E = E - E.mean(0)
+            sv = np.linalg.svd(E, compute_uv=False)
+            kk = min(c["k"], len(sv), n_eff - 1)
+            m3 = W.fit_eof(xe.single.ExtendedEOF, sw, X, weights=None, tau=tau, embedding=emb, n_modes=kk)
+            ev3 = np.asarray(m3.explained_variance().values)
+            ref = sv[:kk] ** 2 / (n_eff - 1)
+            ok = len(ev3) == kk and (np.allclose(ev3, ref, rtol=1e-7, atol=1e-9 * max(ref.max(), 1e-300)) or
+                                     (c["std"] and np.allclose(ev3, ref * c["n"] / (c["n"] - 1), rtol=1e-7, atol=1e-9 * max(ref.max(), 1e-300))))
+            ck.m(ok, "C01", "C01_DelayAugmented", f"ExtendedEOF(tau={tau}, embedding={emb}) explained variances {ev3.tolist()} differ from the eigenvalues of the "
+                                                   f"N-1 covariance of the independently delay-augmented data {ref.tolist()}")
+            count["ExtendedEOF_embedded"] = 1
+    # HilbertEOF on a harmonic world: feature j carries sqrt(s2_j) * unit cosine of integer frequency j; without padding
+    # the analytic signal of a whole-period cosine is the complex exponential, whose norm is sqrt(2) times the cosine's:
+    # the Hilbert spectrum is exactly twice the real one
+    p_ = len(c["s2"])
+    if c["dtype"] == "real" and c["kind"] == "perm" and not sw.lat and c["wp"] == "ones" and not c["std"] and c["cexp"] == 0 \
+            and c["solver"] == "full" and c["n"] >= 2 * p_ + 2 and c["center"]:
+        n_ = c["n"]
+        t = np.arange(n_)
+        H = np.stack([np.cos(2 * np.pi * (j + 1) * t / n_ + 0.37 * j) * np.sqrt(2.0 / n_) for j in range(p_)], axis=1)
+        Xh = sw.data(Z=H * np.sqrt(np.array(c["s2"], float)))
+        mh = W.fit_eof(xe.single.HilbertEOF, sw, Xh, padding="none")
+        evh = np.asarray(mh.explained_variance().values)
+        exp = 2 * np.array(scn["pred"]["sv2"], float) / W.DEN / (n_ - 1)
+        ck.p(len(evh) == len(exp) and np.allclose(evh, exp, rtol=1e-8, atol=1e-10), "C01", "C01_HilbertAugmented",
+             f"HilbertEOF (no padding) on whole-period harmonics: explained variances {evh.tolist()} differ from twice the real spectrum {exp.tolist()}")
+        Vh = np.asarray(mh.data["components"].transpose(..., "mode").values)
+        ck.m(np.abs(Vh.conj().T @ Vh - np.eye(Vh.shape[1])).max() <= 1e-8, "C01", "C01_ComponentsOrthonormal", "HilbertEOF components are not orthonormal")
+        count["HilbertEOF"] = 1
     return dict(found=ck.found, P=ck.P, D=ck.D, M=ck.M, count=count, ctx=dict(wide=c["wide"]))
 
 
